@@ -145,6 +145,19 @@ var badKinds = []badKind{
 	{"time-list-without-time_type", func(n string, num int32) spec.Field {
 		return spec.Field{Name: n, Num: num, Kind: spec.KTime, Card: spec.CardList}
 	}},
+	// field options that look like "leave this field out" but are not exclusions
+	{"time-without-time_type+jsontag-dash", func(n string, num int32) spec.Field {
+		return spec.Field{Name: n, Num: num, Kind: spec.KTime, Nullable: true, JSON: "-"}
+	}},
+	{"duration-without-duration_type+jsontag-dash-omitempty", func(n string, num int32) spec.Field {
+		return spec.Field{Name: n, Num: num, Kind: spec.KDuration, Nullable: false, JSON: "-,omitempty"}
+	}},
+	{"map-int32-key+jsontag-dash", func(n string, num int32) spec.Field {
+		return spec.Field{Name: n, Num: num, Kind: spec.KString, Card: spec.CardMap, MapKey: spec.KInt32, JSON: "-"}
+	}},
+	{"time-without-time_type+jsontag-hidden", func(n string, num int32) spec.Field {
+		return spec.Field{Name: n, Num: num, Kind: spec.KTime, Nullable: false, JSON: "hidden,omitempty"}
+	}},
 	{"map-int32-key", func(n string, num int32) spec.Field {
 		return spec.Field{Name: n, Num: num, Kind: spec.KString, Card: spec.CardMap, MapKey: spec.KInt32}
 	}},
